@@ -49,6 +49,12 @@ noncomputable def customElem (k : Consts ℝ) : Lat.Custom (semP k) where
   skippable := fun _ => rfl
   map := fun _ _ => rfl
 
+/-- while the lattice is being optimised, every item that is not merged — the active diagnostics among them — receives
+exactly the beam that element-by-element tracking of the original lattice sends into it (C11 / C20 for the probe beam of
+`transfer_maps_merged`) -/
+theorem merge_arrivals (h : σ.Lawful) (ls : List (Lat E)) (b : S) :
+    Lat.arrivals σ c keep ls b = Lat.arrSpec σ keep ls b := Lat.arrivals_spec σ c keep h ls b
+
 /-- merging on the concrete ParticleBeam semantics -/
 theorem merge_track_particle_beam (k : Consts ℝ) (keep : Lat (Elem ℝ) → Bool)
     (ls : List (Lat (Elem ℝ))) (b : PBeam ℝ) :
